@@ -72,6 +72,8 @@ Attr(env, cmdDoc) ==
             <<"count", Str("envstr", "env")>>,
             <<"$db", Str("envstr", "env")>>,
             <<"filter", Obj(<< <<"uf1", Str("envstr", "env")>> >>)>>,
+            \* ... or with the client address (only attr.remote itself is one)
+            <<"client", Obj(<< <<"remote", Str("envstr", "env")>>, <<"tags", Arr(<< Obj(<< <<"remote", Str("envstr", "env")>> >>) >>)>> >>)>>,
             <<"durationMillis", Num("env")>> >>)
 
 \* attrKind: "obj" (the usual), or a line whose attr is missing / not a document
